@@ -211,7 +211,7 @@ MUTATIONS += [
  dict(name="c22-derive-describe-lists-skipped-named-fields", props=["C22"], file="sbor-derive-common/src/describe.rs",
       find="            let unskipped_field_name_strings = fields.unskipped_field_name_strings();\n            quote! {\n                sbor::TypeData::struct_with_named_fields(\n                    #type_name,\n                    sbor::rust::vec![\n                        #((#unskipped_field_name_strings, <#unskipped_field_types as sbor::Describe<#custom_type_kind_generic>>::TYPE_ID),)*",
       replace="            let unskipped_field_name_strings: Vec<String> = fields.iter().map(|f| f.name.to_string()).collect();\n            let unskipped_field_types: Vec<syn::Type> = fields.iter().map(|f| f.field_type().clone()).collect();\n            quote! {\n                sbor::TypeData::struct_with_named_fields(\n                    #type_name,\n                    sbor::rust::vec![\n                        #((#unskipped_field_name_strings, <#unskipped_field_types as sbor::Describe<#custom_type_kind_generic>>::TYPE_ID),)*",
-      expect=["arity|radix_transactions::model::v1::manifest_v1::TransactionManifestV1"]),
+      expect=["arity|radix_transactions::model::v1::manifest_v1::LegacyTransactionManifestV1"]),
 ]
 # ---- behaviour-preserving refactors: the checks must stay SILENT on these (benign=True)
 MUTATIONS += [
